@@ -339,11 +339,17 @@ class Case:
             if i not in cands: return
             status = s.context.instances[self.ids[i]]
             status._state = SupvisorsInstanceStates.FAILED
+            # generation 4: two instances found FAILED by the same evaluation (e.g. the instances of a crashed node)
+            i2 = None
+            if self.gen >= 4 and len(cands) >= 2 and self.rnd2.random() < 0.3:
+                i2 = self.rnd2.choice([x for x in cands if x != i])
+                s.context.instances[self.ids[i2]]._state = SupvisorsInstanceStates.FAILED
             lost, failed = s.context.invalidate_failed()
             # _MasterSlaveState._common_next
             self.impl(lambda: (s.starter.on_instances_invalidation(lost, failed), s.stopper.on_instances_invalidation(lost, failed)))
             self.running[i] = False; self.checked[i] = False
-            self.record(f"lose {i}", f" failed=[{','.join(map(str, sorted(self.pidx[x.namespec] for x in failed)))}]")
+            if i2 is not None: self.running[i2] = False; self.checked[i2] = False
+            self.record(f"lose {i}" + (f" {i2}" if i2 is not None else ''), f" failed=[{','.join(map(str, sorted(self.pidx[x.namespec] for x in failed)))}]")
         elif r < 0.6:
             cands = [i for i in others if not self.running[i] and not self.checked[i]]
             if not cands: return
